@@ -19,6 +19,7 @@ type Exit struct {
 	results []Term
 	pval    string
 	ndefers int
+	blk     *ssa.BasicBlock // block in which the exit happened (for deciding which defers were registered)
 }
 
 // Frame is one activation being encoded (the top function or an inlined callee).
@@ -50,6 +51,7 @@ type Frame struct {
 	loopPhis   []*ssa.Phi
 	loopNames  map[string]*ssa.Phi
 	loopRange  *ssa.Range
+	curBlock   *ssa.BasicBlock
 	loopHead   map[int]*loopCtx
 	paramEntry map[string]Term
 	named      map[string]Term
@@ -391,6 +393,7 @@ func (g *Gen) encodeBody(f *Frame, en string, st *State) {
 			}
 		}
 		f.blockEn[b.Index] = f.en
+		f.curBlock = b
 		for _, ins := range b.Instrs {
 			if _, ok := ins.(*ssa.Phi); ok {
 				continue
@@ -841,6 +844,28 @@ func (g *Gen) loopHeader(f *Frame, ci *cfgInfo, b *ssa.BasicBlock, preds []*ssa.
 		}
 		for _, c := range ks {
 			g.verBound[st.comp[c]] = g.now(st)
+		}
+		// The function's frame (checked at every write) also bounds what the loop can have changed: objects that
+		// existed at function entry and are not named by a modifies clause still have their entry value.
+		if g.frameOn && g.topEntry != nil {
+			for _, c := range ks {
+				if c == nowComp || c == "IT" || strings.HasPrefix(c, "ITV$") || !strings.HasPrefix(g.compSort[c], "(Array Int") {
+					continue
+				}
+				star := false
+				conds := []string{fmt.Sprintf("(<= r %s)", g.frameNow0)}
+				for _, a := range g.frameAllowed[c] {
+					if a == "*" {
+						star = true
+					}
+					conds = append(conds, fmt.Sprintf("(not (= r %s))", a))
+				}
+				if star {
+					continue
+				}
+				g.emit("(assert (forall ((r Int)) (! (=> %s (= (select %s r) (select %s r))) :pattern ((select %s r)))))",
+					and(conds...), st.comp[c], g.get(g.topEntry, c), st.comp[c])
+			}
 		}
 	}
 	f.st = st
